@@ -67,3 +67,15 @@ H void h_imc_get(void* imcv, long nbins, double* avg, double* scal, double* corr
   if (imc->do_imc_) { Imc::group_t* g = imc->groups_.begin()->second.get(); for (long a = 0; a < nbins; a++) for (long b = 0; b < nbins; b++) corr[a * nbins + b] = g->corr_(a, b); }
 }
 H void h_imc_clear(void* imcv) { reinterpret_cast<Imc*>(imcv)->ClearAverages(); }
+// ---- WriteDist normalisation: the table handed to Table::Save is captured by the checker through these accessors ----
+H void h_imc_state(void* imcv, const double* avg, long nbins, long is_bonded, double norm, double step, double xmin, double vol) {
+  Imc* imc = reinterpret_cast<Imc*>(imcv);
+  Imc::interaction_t* i = imc->interactions_.begin()->second.get();
+  for (long k = 0; k < nbins; k++) { i->average_.data().y(k) = avg[k]; i->average_.data().x(k) = xmin + (double)k * step; }
+  i->is_bonded_ = is_bonded != 0; i->norm_ = norm; i->step_ = step; i->threebody_ = false; i->force_ = false;
+  imc->avg_vol_.Clear(); imc->avg_vol_.Process(vol);
+}
+H void h_imc_writedist(void* imcv) { reinterpret_cast<Imc*>(imcv)->WriteDist(std::string("s")); }
+H long h_table_size(const votca::tools::Table* t) { return (long)t->size(); }
+H double h_table_x(const votca::tools::Table* t, long i) { return t->x(i); }
+H double h_table_y(const votca::tools::Table* t, long i) { return t->y(i); }
